@@ -3,7 +3,7 @@
 at quiescence in every trace of the C02 and C03 drivers; end to end, AgentTrace!MetricsBalance.  DESIGN.md section 5.11."""
 import json, random
 from lib import vlib
-from checks import agcommon as A, c01, fwdcommon as F, hbcommon as H, c02, c03, fncommon
+from checks import agcommon as A, c01, fwdcommon as F, hbcommon as H, c02, c03, c04, fncommon
 
 FLAGS = ("P19",)
 
@@ -34,6 +34,19 @@ def run(chk):
     scripts = A.stories() + [A.random_script("rnd%d" % i, rnd) for i in range(600 if thorough else 20)]
     n3, e3, rej3, consts = A.run_scripts(chk, scripts, FLAGS, "c19")
     A.handle(chk, rej3, FLAGS, "c19", consts)
+    # gauges after the recovery of damaged / partial / empty chunk files (crash and I/O-fault scenarios of C04): dropped and
+    # consumed counters, persistent gauge = files left, nothing pending
+    cscripts = c04.grid([1], False)
+    cscripts = cscripts if thorough else cscripts[::3]
+    n4, e4, rej4, _, _ = c04.run_scripts(chk, cscripts)
+    for script, path, res in rej4[:2]:
+        n5, e5, rej5, _, _ = c04.run_scripts(chk, [dict(script, id=script["id"] + "-r")])
+        if rej5:
+            chk.report("chunkfile-gauges:" + str(rej5[0][2].get("inv") or "")[:40], "recovery of a damaged queue directory: trace rejected by ChunkFileTrace (counters / gauges at RecoveryDone): %s" % c04.why_of(rej5[0][2]),
+                       {"script.json": script, "trace.ndjson": open(rej5[0][1]).read()})
+        else:
+            chk.inconclusive.append("chunk file scenario %s rejected once, not on re-run" % script["id"])
+    cov["chunkfile_recovery_scenarios"] = n4
     # attribution of labelled counters: programs of labelled transforms sharing label names on the real LogProcessCounterSet
     d = chk.sub("lbwork")
     rl = fncommon.run_fn(chk, "lb", "LabelsTrace", "LabelsTrace.cfg", extra_args=["-work", d], shards=8, max_findings_per_shard=3)
